@@ -76,6 +76,9 @@ type Target interface {
 	ModelOp(in Input) map[string]any
 	// Ping on the connection in use and on a fresh one: "" = fine.
 	Alive() string
+	// Handshake: a complete fresh session on a NEW connection — initialize, notifications/initialized, tools/list —
+	// each step with a ceiling: "" = fine.
+	Handshake() string
 	Close()
 }
 
@@ -184,7 +187,8 @@ func NewStreamable(cfg StreamableCfg, reg *Registry) (Target, error) {
 	t.fx = hk.NewFixture(hk.SrvCfg{Mode: cfg.Mode, Get: true, PostSSE: cfg.PostSSE})
 	t.fx.TS.Config.ErrorLog = log.New(t.plog, "", 0)
 	reg.Install(t.fx.S)
-	t.fresh = &http.Client{Transport: &http.Transport{DisableKeepAlives: true, DisableCompression: true}}
+	t.fresh = &http.Client{Transport: &http.Transport{DisableKeepAlives: true, DisableCompression: true}, Timeout: stepCeiling}
+	t.fx.HC.Timeout = 2 * stepCeiling // a server that never answers must not hang the run
 	if cfg.Mode == "stateful" {
 		for _, name := range []string{"s0", "s1", "dead"} {
 			r := t.fx.Post(map[string]string{"Accept": "application/json"}, initBody)
@@ -245,6 +249,75 @@ func (t *streamable) headers(in Input) map[string]string {
 
 func intp(i int) *int { return &i }
 
+// stepCeiling bounds every single step of a liveness probe.
+const stepCeiling = 5 * time.Second
+
+const (
+	hsInit  = `{"jsonrpc":"2.0","id":"hs-init","method":"initialize","params":{"protocolVersion":"2025-03-26","capabilities":{},"clientInfo":{"name":"probe","version":"1"}}}`
+	hsNotif = `{"jsonrpc":"2.0","method":"notifications/initialized"}`
+	hsList  = `{"jsonrpc":"2.0","id":"hs-list","method":"tools/list"}`
+)
+
+func hasResult(b []byte, id string) bool {
+	var m struct {
+		ID     any              `json:"id"`
+		Result *json.RawMessage `json:"result"`
+	}
+	return json.Unmarshal(b, &m) == nil && m.Result != nil && m.ID == id
+}
+
+func isTimeout(err error) bool {
+	if err == nil {
+		return false
+	}
+	type to interface{ Timeout() bool }
+	if t, ok := err.(to); ok && t.Timeout() {
+		return true
+	}
+	return strings.Contains(err.Error(), "Client.Timeout") || strings.Contains(err.Error(), "deadline exceeded")
+}
+
+func (t *streamable) Handshake() string {
+	post := func(sid, body string) (int, []byte, string, error) {
+		req, _ := http.NewRequest("POST", t.fx.URL, strings.NewReader(body))
+		req.Header.Set("Content-Type", "application/json")
+		req.Header.Set("Accept", "application/json")
+		if sid != "" {
+			req.Header.Set("Mcp-Session-Id", sid)
+		}
+		resp, err := t.fresh.Do(req)
+		if err != nil {
+			return 0, nil, "", err
+		}
+		b, err := io.ReadAll(resp.Body)
+		resp.Body.Close()
+		return resp.StatusCode, b, resp.Header.Get("Mcp-Session-Id"), err
+	}
+	st, b, sid, err := post("", hsInit)
+	if err != nil || st != 200 || !hasResult(b, "hs-init") {
+		return fmt.Sprintf("initialize on a new connection without a session: status %d err %v body %.120q", st, err, b)
+	}
+	if t.cfg.Mode != "stateful" {
+		sid = ""
+	} else if sid == "" {
+		return "initialize on a new connection: no session id in the answer"
+	}
+	if st, _, _, err = post(sid, hsNotif); err != nil || st != 202 {
+		return fmt.Sprintf("notifications/initialized in the new session: status %d err %v", st, err)
+	}
+	if st, b, _, err = post(sid, hsList); err != nil || st != 200 || !hasResult(b, "hs-list") {
+		return fmt.Sprintf("tools/list in the new session: status %d err %v body %.120q", st, err, b)
+	}
+	if sid != "" {
+		req, _ := http.NewRequest("DELETE", t.fx.URL, nil)
+		req.Header.Set("Mcp-Session-Id", sid)
+		if resp, err := t.fresh.Do(req); err == nil {
+			resp.Body.Close()
+		}
+	}
+	return ""
+}
+
 func (t *streamable) Exchange(in Input) Observed {
 	url := t.fx.URL
 	if in.Path == "wrong" {
@@ -276,6 +349,10 @@ func (t *streamable) Exchange(in Input) Observed {
 		o.Status = intp(r.Status)
 		if r.Err != nil {
 			o.Status = intp(0)
+			if isTimeout(r.Err) {
+				o.Problems = append(o.Problems, "no answer within "+(2*stepCeiling).String()+": "+r.Err.Error())
+				o.Dead = true
+			}
 		}
 		o.RawBody = string(r.Body)
 		t.parseBody(&o, r)
@@ -666,6 +743,7 @@ func (t *sseTarget) Exchange(in Input) Observed {
 	// whatever the request goroutine emits is queued before it ends; the sentinel's answer is queued after that
 	if why := waitQuiet(5 * time.Second); why != "" {
 		o.Problems = append(o.Problems, why)
+		o.Dead = true // a request is stuck: going on would cost the ceiling again and again
 	}
 	frames, why := t.sentinel(t.peer)
 	if why != "" {
@@ -718,6 +796,46 @@ func (t *sseTarget) Alive() string {
 	return ""
 }
 
+// await: the frame carrying `"id":"<id>"` (consumed), within the ceiling.
+func (p *ssePeer) await(id string) bool {
+	_, ok := p.takeUntil(id, stepCeiling)
+	return ok
+}
+
+func (t *sseTarget) Handshake() string {
+	p, _, err := openSSE(t.ts.URL, t.hc)
+	if err != nil {
+		return "opening a fresh stream: " + err.Error()
+	}
+	defer p.close()
+	hc := &http.Client{Transport: t.hc.Transport, Timeout: stepCeiling}
+	post := func(body string) (int, error) {
+		resp, err := hc.Post(p.msgURL, "application/json", strings.NewReader(body))
+		if err != nil {
+			return 0, err
+		}
+		io.Copy(io.Discard, resp.Body)
+		resp.Body.Close()
+		return resp.StatusCode, nil
+	}
+	if st, err := post(hsInit); err != nil || st != 202 {
+		return fmt.Sprintf("initialize on a fresh stream: status %d err %v", st, err)
+	}
+	if !p.await("hs-init") {
+		return "initialize on a fresh stream: no answer on the stream within " + stepCeiling.String()
+	}
+	if st, err := post(hsNotif); err != nil || st != 202 {
+		return fmt.Sprintf("notifications/initialized on the fresh stream: status %d err %v", st, err)
+	}
+	if st, err := post(hsList); err != nil || st != 202 {
+		return fmt.Sprintf("tools/list on the fresh stream: status %d err %v", st, err)
+	}
+	if !p.await("hs-list") {
+		return "tools/list on the fresh stream: no answer within " + stepCeiling.String()
+	}
+	return ""
+}
+
 // ---------------------------------------------------------------------------------------------------------------------
 // stdio
 
@@ -737,6 +855,7 @@ func newStdioPeer(s *mcp.StdioServer) *stdioPeer {
 	p := &stdioPeer{in: inW, cancel: cancel, notify: make(chan struct{}, 1), eof: make(chan struct{})}
 	go func() {
 		mcp.VerifServeStdio(ctx, s, inR, outW)
+		inR.CloseWithError(io.ErrClosedPipe) // the server stopped reading: a peer's write fails instead of blocking for ever
 		outW.Close()
 	}()
 	go func() {
@@ -837,6 +956,7 @@ func (t *stdioTarget) Exchange(in Input) Observed {
 	}
 	if why := waitQuiet(5 * time.Second); why != "" {
 		o.Problems = append(o.Problems, why)
+		o.Dead = true // a request is stuck: going on would cost the ceiling again and again
 	}
 	b, why := t.sentinel(t.peer)
 	if why != "" {
@@ -874,6 +994,35 @@ func (t *stdioTarget) Alive() string {
 	defer p.close()
 	if _, why := t.sentinel(p); why != "" {
 		return "on a fresh transport over the same server: " + why
+	}
+	return ""
+}
+
+func (t *stdioTarget) Handshake() string {
+	p := newStdioPeer(t.srv)
+	defer p.close()
+	write := func(line string) error {
+		_, err := p.in.Write([]byte(line + "\n"))
+		return err
+	}
+	await := func(id string) bool {
+		_, ok := p.takeUntil(id, stepCeiling)
+		return ok
+	}
+	if err := write(hsInit); err != nil {
+		return "initialize on a fresh transport: " + err.Error()
+	}
+	if !await("hs-init") {
+		return "initialize on a fresh transport over the same server: no answer within " + stepCeiling.String()
+	}
+	if err := write(hsNotif); err != nil {
+		return "notifications/initialized on the fresh transport: " + err.Error()
+	}
+	if err := write(hsList); err != nil {
+		return "tools/list on the fresh transport: " + err.Error()
+	}
+	if !await("hs-list") {
+		return "tools/list on the fresh transport: no answer within " + stepCeiling.String()
 	}
 	return ""
 }
